@@ -77,6 +77,33 @@ pub fn child(args: &[String]) -> i32 {
         let g = Fst::new(&mm[..]).unwrap();
         g.len() as u64
     });
+    // lookups on an FST whose nodes have every kind of fan-out (root 256 with
+    // index table, 9..32 linear scan below it, one-transition tails)
+    let bushy: Vec<u8> = {
+        let mut keys: Vec<[u8; 6]> = (0..n.min(200_000)).map(|i| {
+            let h = crate::engine::mix(seed ^ 0xb5, i);
+            [(h >> 8) as u8, (h >> 16) as u8 % 24, (h >> 24) as u8 % 12, (h >> 32) as u8, (h >> 40) as u8, (h >> 48) as u8]
+        }).collect();
+        keys.sort();
+        keys.dedup();
+        let mut b = fst::raw::Builder::new(Vec::new()).unwrap();
+        for (i, k) in keys.iter().enumerate() {
+            b.insert(k, i as u64).unwrap();
+        }
+        b.into_inner().unwrap()
+    };
+    let bf = Fst::new(&bushy[..]).unwrap();
+    measure!("point_lookups_bushy", {
+        let mut hits = 0u64;
+        for i in 0..20_000u64 {
+            let h = crate::engine::mix(seed ^ 0xb5, i * 7);
+            let k = [(h >> 8) as u8, (h >> 16) as u8 % 24, (h >> 24) as u8 % 12, (h >> 32) as u8, (h >> 40) as u8, (h >> 48) as u8];
+            hits += bf.get(&k).is_some() as u64 + bf.contains_key(&k[..5]) as u64 + bf.contains_key(&k[..2]) as u64;
+            let miss = [k[0], k[1] ^ 0x40, k[2], k[3], 0, 0];
+            hits += bf.get(&miss).is_some() as u64;
+        }
+        hits
+    });
     measure!("point_lookups", {
         let mut hits = 0u64;
         for i in 0..1000u64 {
@@ -202,7 +229,7 @@ impl ProbeKey for Vec<u8> {
     }
 }
 
-const ZERO_ALLOC_OPS: [&str; 3] = ["open_slice", "open_mmap_ref", "point_lookups"];
+const ZERO_ALLOC_OPS: [&str; 4] = ["open_slice", "open_mmap_ref", "point_lookups", "point_lookups_bushy"];
 
 pub fn check(sizes: &(u64, u64, u64), rec: &mut Rec) -> Result<Value, Fail> {
     let (small_n, big_n, seed) = *sizes;
